@@ -97,6 +97,43 @@ theorem unsigned_sub_wrap {w : Nat} (a b : BitVec w) :
     omega
   rw [this, Int.add_mul_emod_self_left]
 
+/-! shifts: `<<` exact whenever the product fits; `>>` always exact (floor) -/
+theorem signed_shl_exact {w : Nat} (a : BitVec w) (k : Nat)
+    (h : InRange w true (a.toInt * ((2 ^ k : Nat) : Int))) :
+    (a <<< k).toInt = a.toInt * ((2 ^ k : Nat) : Int) := by
+  rw [BitVec.toInt_shiftLeft, Nat.shiftLeft_eq, Int.natCast_mul]
+  have h1 := bmod_of_inRange w _ h
+  rw [← h1, BitVec.toInt_eq_toNat_bmod, Int.bmod_mul_bmod]
+
+theorem unsigned_shl_exact {w : Nat} (a : BitVec w) (k : Nat) (h : a.toNat * 2 ^ k < 2 ^ w) :
+    (a <<< k).toNat = a.toNat * 2 ^ k := by
+  rw [BitVec.toNat_shiftLeft, Nat.shiftLeft_eq, Nat.mod_eq_of_lt h]
+
+theorem signed_shr_exact {w : Nat} (a : BitVec w) (k : Nat) :
+    (a.sshiftRight k).toInt = a.toInt / ((2 ^ k : Nat) : Int) := by
+  rw [BitVec.toInt_sshiftRight, Int.shiftRight_eq_div_pow]
+
+theorem unsigned_shr_exact {w : Nat} (a : BitVec w) (k : Nat) :
+    (a >>> k).toNat = a.toNat / 2 ^ k := by
+  rw [BitVec.toNat_ushiftRight, Nat.shiftRight_eq_div_pow]
+
+/-! `u8` division and modulo -/
+theorem u8Divide_spec (a b : BitVec 8) :
+    u8Divide a b = if b.toNat = 0 then .raise "ZeroDivisionError" 239#8 else .fast (a / b) := by
+  unfold u8Divide
+  by_cases h : b = 0#8
+  · subst h; simp
+  · have : b.toNat ≠ 0 := fun e => h (BitVec.eq_of_toNat_eq (by simpa using e))
+    simp [h, this]
+
+theorem u8Mod_spec (a b : BitVec 8) :
+    u8Mod a b = if b.toNat = 0 then .raise "ZeroDivisionError" 239#8 else .fast (a % b) := by
+  unfold u8Mod
+  by_cases h : b = 0#8
+  · subst h; simp
+  · have : b.toNat ≠ 0 := fun e => h (BitVec.eq_of_toNat_eq (by simpa using e))
+    simp [h, this]
+
 /-! ## inline_fixed_width_divide / inline_fixed_width_mod -/
 
 theorem inlineDivide_exact64 (a c : BitVec 64) (h0 : c.toInt ≠ 0) (h1 : c.toInt ≠ -1) :
@@ -480,5 +517,42 @@ theorem u8ToInt_spec (src : BitVec 8) :
   have t := toInt_toNat (BitVec.zeroExtend 64 src)
   have := shl1_toInt (BitVec.zeroExtend 64 src) (by omega)
   rw [isShort_iff_toInt]; unfold sval; omega
+
+/-! ## ranges -/
+
+theorem rshift_fits (l r : BitVec 64) (hc : isShort l ∧ isShort r ∧ 0 ≤ sval r) :
+    Fits (pyShr (sval l) (sval r).toNat) := by
+  obtain ⟨hl, hr, hn⟩ := hc
+  have hfl := short_fits l hl
+  by_cases hbig : 64 ≤ (sval r).toNat
+  · rw [pyShr_big _ _ hbig hfl]
+    split <;> decide
+  · have h1 := short_toInt l hl
+    have h := and_FE_toInt (BitVec.sshiftRight l (sval r).toNat)
+    rw [BitVec.toInt_sshiftRight, Int.shiftRight_eq_div_pow, h1] at h
+    have := pyShr_small (sval l) (sval r).toNat
+    have hb := toInt_bounds (BitVec.sshiftRight l (sval r).toNat &&& 18446744073709551614#64)
+    unfold Fits
+    omega
+
+theorem fdiv_range64 (x y : BitVec 64) (hz : y.toInt ≠ 0)
+    (ho : ¬ (y.toInt = -1 ∧ x.toInt = -9223372036854775808)) :
+    -9223372036854775808 ≤ x.toInt.fdiv y.toInt ∧ x.toInt.fdiv y.toInt < 9223372036854775808 := by
+  have hbx := toInt_bounds x
+  have hby := toInt_bounds y
+  generalize x.toInt = a at *
+  generalize y.toInt = b at *
+  obtain ⟨hdm, hm0, hm1, hm2, hm3⟩ := tmod_facts a b hz
+  have hfd := fdiv_of_tdiv a b hz
+  have htb := tdiv_abs_le a b
+  have hth : a.tmod b ≠ 0 → 2 * (a.tdiv b).natAbs ≤ a.natAbs := tdiv_abs_half a b hz
+  generalize ht : a.tdiv b = t at *
+  generalize hmm : a.tmod b = m at *
+  have htne : t ≠ 9223372036854775808 := by
+    intro e; subst e
+    have : a = -9223372036854775808 := by omega
+    subst this
+    omega
+  split at hfd <;> omega
 
 end CFastProofs
